@@ -36,7 +36,8 @@ def strategy_(draw, tier):
                  big=draw(st.booleans()))
             for i in range(n)]
     return {"ents": ents,
-            "target": draw(st.sampled_from(["home", "home", "top_sticky", "top_alt", "fallback", "fallback"])),
+            "target": draw(st.sampled_from(["home", "home", "top_sticky", "top_alt", "fallback", "fallback",
+                                            "top_alt_fb", "top_sticky_fb"])),
             "state": draw(st.sampled_from(["first_use", "existing", "collision", "collision100"])),
             "opts": draw(st.sampled_from([[], ["-v"], ["-f"]])),
             "uid": draw(st.sampled_from([1000, 0]))}
@@ -56,6 +57,12 @@ def build(case):
     on_home = tgt == "home"
     root = home if on_home else "/vol"
     nodes = [{"p": root + "/w", "t": "d"}, {"p": "/keep/x", "t": "f", "c": "x"}]
+    if tgt.endswith("_fb"):
+        # the volume trash is usable AND the home fallback is enabled both ways: under a fault in
+        # the volume trash, trash-put moves on to the home trash (another file system)
+        env["TRASH_ENABLE_HOME_FALLBACK"] = "1"
+        opts.append("--home-fallback")
+        tgt = tgt[:-3]
     if tgt == "top_sticky":
         nodes += gen.topdir_nodes("/vol", uid, "sticky", "absent")
         tdir = "/vol/.Trash/%d" % uid
